@@ -39,4 +39,5 @@ EXTRAS = [
     lambda rep, fb, tier: __import__("vf.rules.lints", fromlist=["x"]).rule_own_metadata(rep, fb),
     lambda rep, fb, tier: __import__("vf.rules.lints", fromlist=["x"]).rule_ctor_roles(rep, fb),
     lambda rep, fb, tier: __import__("vf.rules.lints", fromlist=["x"]).rule_call_roles(rep, fb),
+    lambda rep, fb, tier: __import__("vf.rules.lints2", fromlist=["x"]).rule_dtype_case_methods(rep, fb),
 ]
